@@ -126,6 +126,7 @@ def run(res, tier, rng, table_diffs=()):
         inputs.append(("arg-counts", "print(\"%s\", %s)" % ("{} " * min(n, 40), args) if n else "print()"))
     from .. import gen2
     inputs += gen2.operand_height_programs()
+    inputs += [("shrinking-text", p) for p in gen2.shrinking_text_programs()]
     n = 3000 if tier == "quick" else 100000
     for _ in range(n):
         inputs.append(("tokens", " ".join(rng.pick(VOCAB) for _ in range(rng.range(1, 14)))))
